@@ -1,8 +1,79 @@
 /-
-C09 — property theorems (stub; see DESIGN.md §6).
+C09 — Supervised maps are functional and consistent with every training label.
+
+`MapInv s` (ArtProofs/Map.lean): the map has exactly one entry per A-side
+category, every entry is defined (total), and zipping the stored A-side labels
+with the supplied targets, each A-label maps to its target.  It holds after any
+history of `fit` / `partial_fit` calls, for every A-side kernel, all five modes,
+every epsilon, arbitrary (also contradictory) label sequences.
 -/
-import ArtModel.Basic
+import ArtProofs.Predict
 
 namespace Art.C09
+
+variable {X Wt α μ θ : Type} [LinearOrder α]
+
+/-- one supervised step keeps the invariant, never overwrites an entry, and
+encodes the sample by a category of its own class -/
+theorem step_inv (K : Kernel X Wt α μ) (cfg : SearchCfg μ θ) (th0 : θ)
+    (s : SMapState Wt) (xy : X × Nat) (h : MapInv s) :
+    MapInv (smapStep K cfg th0 s xy) ∧
+    (∀ c y, mapGet s.map c = some y → mapGet (smapStep K cfg th0 s xy).map c = some y) ∧
+    (∃ c, (smapStep K cfg th0 s xy).a.labels = s.a.labels ++ [c] ∧
+      mapGet (smapStep K cfg th0 s xy).map c = some xy.2) :=
+  smapStep_inv K cfg th0 s xy h
+
+/-- **map_inv** after `partial_fit` on any batch, from any state satisfying it;
+entries present before are still there with the same class (functional for the
+whole history). -/
+theorem map_inv_partial_fit (K : Kernel X Wt α μ) (cfg : SearchCfg μ θ) (th0 : θ)
+    (s : SMapState Wt) (xys : List (X × Nat)) (h : MapInv s) :
+    MapInv (smapPartialFit K cfg th0 s xys) ∧
+    (∀ c y, mapGet s.map c = some y → mapGet (smapPartialFit K cfg th0 s xys).map c = some y) :=
+  smapPartialFit_inv K cfg th0 s xys h
+
+/-- **map_inv** after `fit` -/
+theorem map_inv_fit (K : Kernel X Wt α μ) (cfg : SearchCfg μ θ) (th0 : θ)
+    (s : SMapState Wt) (xys : List (X × Nat)) : MapInv (smapFit K cfg th0 s xys) :=
+  smapFit_inv K cfg th0 s xys
+
+/-- mapping the stored A-side labels reproduces the supplied targets exactly
+(so the implementation's `assert self.map[c_a] == c_b` is unreachable) -/
+theorem map_a2b_reproduces_targets (K : Kernel X Wt α μ) (cfg : SearchCfg μ θ) (th0 : θ)
+    (s : SMapState Wt) (xys : List (X × Nat)) :
+    mapA2B (smapFit K cfg th0 s xys).map (smapFit K cfg th0 s xys).a.labels =
+      (xys.map (·.2)).map some := by
+  have h := mapInv_mapA2B (smapFit_inv K cfg th0 s xys)
+  rw [h]
+  have := smapPartialFit_labelsB K cfg th0 ({} : SMapState Wt) xys
+  simp only [smapFit]
+  rw [this]
+  simp
+
+/-- predictions are the map of the A-side prediction and are classes seen in training -/
+theorem predict_eq_map_of_predict_a (K : Kernel X Wt α μ) (cfg : SearchCfg μ θ) (th0 : θ)
+    (s0 : SMapState Wt) (xys : List (X × Nat)) (x : X)
+    (hne : (smapFit K cfg th0 s0 xys).a.W ≠ []) :
+    ∃ c y, stepPred K (smapFit K cfg th0 s0 xys).a.W x = some c ∧
+      mapGet (smapFit K cfg th0 s0 xys).map c = some y ∧
+      smapStepPred K (smapFit K cfg th0 s0 xys) x = some (c, y) ∧ y ∈ xys.map (·.2) := by
+  have hm := smapFit_inv K cfg th0 s0 xys
+  have hc : Consistent (smapFit K cfg th0 s0 xys).a :=
+    smapPartialFit_consistent K cfg th0 {} xys consistent_empty
+  obtain ⟨c, y, h1, h2, h3, h4⟩ := smapStepPred_spec K hm hc x hne
+  refine ⟨c, y, h1, h2, h3, ?_⟩
+  have := smapPartialFit_labelsB K cfg th0 ({} : SMapState Wt) xys
+  simp only [smapFit] at h4
+  rw [this] at h4
+  simpa using h4
+
+/-! Non-vacuity: contradictory labels on identical rows force a second category. -/
+private def K0 : Kernel Int Int Int Int :=
+  { choice := fun _ x w => some (-(x - w).natAbs), matchv := fun x w => -(x - w).natAbs,
+    update := fun _ w => w, newW := fun x => x }
+private def cfg0 : SearchCfg Int Int := scalarCfg .plus false (· + 1) (· - 1) 1000
+
+example : (smapFit K0 cfg0 (-5) {} [(3, 0), (3, 1), (3, 0)]).a.labels = [0, 1, 0] := by decide
+example : (smapFit K0 cfg0 (-5) {} [(3, 0), (3, 1), (3, 0)]).map = [some 0, some 1] := by decide
 
 end Art.C09
